@@ -53,6 +53,8 @@ def sleepers_scenario(sh: Shard, seed, idx, regime):
         sleeps = []  # (sleeper, start, delay, end)
         switches = []  # (time, active)
         stop = {"v": False}
+        asked = set()  # sleeper tasks the harness itself cancelled
+        raised = []  # config_sleep calls that raised although nobody cancelled the sleeper
 
         async def sleeper(i):
             delays = [r.choice([0.05, 0.5, 1, 2, 5, 30, 60, 120]) for _ in range(200)]
@@ -62,7 +64,12 @@ def sleepers_scenario(sh: Shard, seed, idx, regime):
                 d = delays[k % len(delays)]
                 k += 1
                 s = w.now
-                await C.config_sleep(d)
+                try:
+                    await C.config_sleep(d)
+                except BaseException as e:  # noqa
+                    if asyncio.current_task() not in asked:
+                        raised.append((i, s, d, w.now, type(e).__name__))
+                    raise
                 sleeps.append((i, s, d, w.now))
                 if r.random() < 0.3:
                     await asyncio.sleep(r.choice([0, 0.01, 0.2]))
@@ -75,7 +82,9 @@ def sleepers_scenario(sh: Shard, seed, idx, regime):
                 await asyncio.sleep(r.choice([0.3, 1.5, 4.0]))
                 live = [t for t in tasks if not t.done()]
                 if len(live) > 1 and r.random() < 0.6:
-                    r.choice(live).cancel()
+                    victim = r.choice(live)
+                    asked.add(victim)
+                    victim.cancel()
                     sh.count("sleepers_cancelled_mid_sleep")
                     await asyncio.sleep(r.choice([0.0, 0.05, 0.5]))
                     tasks.append(asyncio.ensure_future(sleeper(k)))
@@ -105,6 +114,7 @@ def sleepers_scenario(sh: Shard, seed, idx, regime):
             if churner is not None:
                 churner.cancel()
             for t in tasks:
+                asked.add(t)
                 t.cancel()
             await asyncio.gather(*tasks, return_exceptions=True)
 
@@ -119,6 +129,8 @@ def sleepers_scenario(sh: Shard, seed, idx, regime):
         late = REGIMES[regime][0]
         stalls = w.loop.vsel.injected_stalls
         sh.evaluations += 1
+        for (i, s, d, e, exc) in raised:
+            sh.violation("C17:sleep-raised", f"config_sleep({d}) of sleeper {i} raised {exc} after {e - s:.3f}s although nobody cancelled that sleeper (the other sleepers and the switches are the only other actors)", {"scenario": f"{seed}:{idx}", "sleepers": n, "sleeper": i, "delay": d, "regime": regime})
         for (i, s, d, e) in sleeps:
             sh.count("sleeps_observed")
             wit = {"scenario": f"{seed}:{idx}", "sleepers": n, "sleeper": i, "start": round(s, 4), "delay": d, "end": round(e, 4), "regime": regime, "switches": [round(x[0], 4) for x in switches]}
